@@ -42,7 +42,7 @@ theorem updateNextPrev_ns_below (r : TokenRing) (a : Nat) (ha : a < 128) (hact :
   simp only [updateNextPrev, activeList, List.find?_filter, hf, List.head?_filter, hh]
 
 /-- **`set_next_station(a)` really makes `a` the next station** (for every LAS content), `a ≠ TS`. -/
-theorem setNextStation_ns (r r' : TokenRing) (a : Nat) (hne : a ≠ r.ts) (hts : r.ts < 128)
+theorem setNextStation_spec (r r' : TokenRing) (a : Nat) (hne : a ≠ r.ts) (hts : r.ts < 128)
     (h : r.setNextStation a = some r') : r'.ns = a ∧ r'.ts = r.ts ∧ r'.las = r.las ∧ r'.isActive a = true := by
   unfold setNextStation at h
   split at h
@@ -690,10 +690,15 @@ theorem isSd1_request (a ts : Nat) : isSd1 (some (statusRequestBytes a ts)) = tr
 theorem isSd1_token (ns ts : Nat) : isSd1 (some (tokenBytes ns ts)) = false := by
   simp [isSd1, tokenBytes, sendToken, SD1, SD4]
 
-/-- Number of SD1 frames (status requests) the station transmits outside the application phase during
-the polls of ONE token visit: `ins` lists the successive `poll` calls; counting stops when the station
-no longer holds the token for this visit (`phase = none`) or a new visit begins (a station that is
-alone in the ring hands the token to itself: back to phase 0).  `none` = a poll panicked. -/
+/-- Number of own GAP polls during the polls of ONE token visit: `ins` lists the successive `poll`
+calls.  A poll is counted iff it transmits an SD1 frame (FDL status request) that is not an
+application's message cycle: any SD1 frame sent after the application phase (phase ≥ 1), and in the
+application phase the one after which the station awaits the answer as GAP poll
+(`AwaitStatusResponse`; since the repair of K3 the end of the token hold does its GAP maintenance in
+the same poll — an application's own status request leads to `AwaitDataResponse` instead).
+Counting stops when the station no longer holds the token for this visit (`phase = none`) or, after
+GAP maintenance has begun, a new visit begins (a station that is alone in the ring hands the token to
+itself: back to phase 0).  `none` = a poll panicked. -/
 def gapPolls (s : Station) (apps : Apps) : List (Int × Bool × Bytes) → Option Nat
   | [] => some 0
   | (now, phyTx, rx) :: rest =>
@@ -703,7 +708,7 @@ def gapPolls (s : Station) (apps : Apps) : List (Int × Bool × Bytes) → Optio
       match s.poll apps now phyTx rx with
       | .panic _ => none
       | .ok c' =>
-        let k := if ph ≠ 0 ∧ isSd1 c'.tx = true then 1 else 0
+        let k := if isSd1 c'.tx = true ∧ (ph ≠ 0 ∨ phase c'.s.st = some 2) then 1 else 0
         if ph ≠ 0 ∧ phase c'.s.st = some 0 then some k
         else (gapPolls c'.s c'.apps rest).map (· + k)
 
